@@ -126,7 +126,51 @@ func buildC20Meta(w *World) c20Meta {
 			m.Spell[r.ToTag] = appendUniq(m.Spell[r.ToTag], file)
 		}
 	}
+	// an anyOf $ref branch anywhere becomes a cross-package one as soon as its document
+	// is merged into another package by some cross-package combinator ref
+	if m.CrossPkgCombo && hasAnyOfRefBranch(w) {
+		m.CrossPkgAnyOf = true
+	}
 	return m
+}
+
+// hasAnyOfRefBranch: does any document contain an anyOf with a $ref branch?
+func hasAnyOfRefBranch(w *World) bool {
+	var walk func(v any) bool
+	walk = func(v any) bool {
+		switch x := v.(type) {
+		case Obj:
+			for _, kv := range x {
+				if kv.K == "anyOf" {
+					if a, ok := kv.V.([]any); ok {
+						for _, b := range a {
+							if bo, ok := b.(Obj); ok {
+								if _, isRef := bo.Get("$ref"); isRef {
+									return true
+								}
+							}
+						}
+					}
+				}
+				if walk(kv.V) {
+					return true
+				}
+			}
+		case []any:
+			for _, e := range x {
+				if walk(e) {
+					return true
+				}
+			}
+		}
+		return false
+	}
+	for _, f := range w.Files {
+		if walk(f.Doc) {
+			return true
+		}
+	}
+	return false
 }
 
 func appendUniq(a []string, s string) []string {
